@@ -430,10 +430,14 @@ class Multiplexer(wiring.Component):
             # sort ranges in an arbitrary but nice fashion so that we build registers and so create
             # chunks and elaborate their connections deterministically
             ranges = sorted(self._ranges, key=lambda r: (r.start, r.stop, r.step))
+            # Doubling the shadow only changes the decoding while it brings more address bits into
+            # play. Registers that are not naturally aligned may alias regardless of the size; once
+            # every address bit is used, the overlap constraint is best-effort.
+            can_grow = any(self._size <= reg_range.start for reg_range in ranges)
             for reg_range in ranges:
                 for chunk_addr in reg_range:
                     chunk_offset = self.decode_address(chunk_addr, reg_range)
-                    if len(registers[chunk_offset]) > self.overlaps:
+                    if can_grow and len(registers[chunk_offset]) > self.overlaps:
                         balanced = False
                         break
                     registers[chunk_offset].append(reg_range)
